@@ -14,7 +14,7 @@ use std::sync::Mutex;
 use std::time::{Duration, Instant};
 
 pub const LOG_FD: i32 = 250;
-pub const HANG_SECS: u64 = 20;
+pub const HANG_SECS: u64 = 8;
 
 #[derive(Clone, Debug, PartialEq)]
 pub enum Status {
@@ -257,6 +257,40 @@ pub fn materialise(root: &Path, w: &World, program: &[u8]) -> std::io::Result<La
             let _ = fs::remove_file(&ln);
             std::os::unix::fs::symlink(&script, &ln)?;
             argv1.extend_from_slice(b"link.sd");
+        }
+        // fault spellings (C02/C03 only): the kernel itself refuses the open/read
+        7 => {
+            // trailing slash on a regular file: ENOTDIR
+            argv1.append(&mut rel_prefix);
+            argv1.extend_from_slice(fname.as_bytes());
+            argv1.push(b'/');
+        }
+        8 => {
+            // the script path is a directory: open succeeds, read fails with EISDIR
+            fs::create_dir_all(cwd.join("dir.sd"))?;
+            argv1.extend_from_slice(b"dir.sd");
+        }
+        9 => {
+            // symlink loop: ELOOP
+            let a = cwd.join("loop_a.sd");
+            let b = cwd.join("loop_b.sd");
+            let _ = fs::remove_file(&a);
+            let _ = fs::remove_file(&b);
+            std::os::unix::fs::symlink("loop_b.sd", &a)?;
+            std::os::unix::fs::symlink("loop_a.sd", &b)?;
+            argv1.extend_from_slice(b"loop_a.sd");
+        }
+        10 => {
+            // no such file
+            argv1.extend_from_slice(b"missing/nowhere.sd");
+        }
+        11 => {
+            // a path longer than PATH_MAX: ENAMETOOLONG
+            for _ in 0..30 {
+                argv1.extend_from_slice(&[b'x'; 200]);
+                argv1.push(b'/');
+            }
+            argv1.extend_from_slice(b"a.sd");
         }
         _ => {
             argv1.append(&mut rel_prefix);
